@@ -108,6 +108,7 @@ pub fn crashrun(args: &Args) -> i32 {
     };
     mark("M C0".into());
     let opts = InstOpts {
+            detached: false,
         filter_seed: None,
         shared: None,
         obs_seed: seed ^ case,
